@@ -71,6 +71,12 @@ Definition fun2core_tags (p : fcprog) (ncmp : nat) (has_exp : bool) : string :=
        ++ " cmp" ++ n_to_string (N.of_nat ncmp)
        ++ " size" ++ n_to_string (N.log2 (size_fcprog p)).
 
+Fixpoint ends_with (suffix s : string) : bool :=
+  String.eqb suffix s || match s with EmptyString => false | String _ r => ends_with suffix r end.
+(* the witness of the theorem fun2core_capture_refuted is the real checked form of capture1.sc *)
+Definition witness_ok (name : string) (p : fcprog) : bool :=
+  if ends_with "corpus/fun/capture1.sc" name then fcprog_eqb p capture_witness else true.
+
 Definition fun2core_case (i r : sexp) : verdict :=
   match i with
   | L [Q name; p; L tuples; exp] =>
@@ -79,6 +85,9 @@ Definition fun2core_case (i r : sexp) : verdict :=
           match check_expected p tuples exp with
           | Some why => VBad why
           | None =>
+              if negb (witness_ok name p)
+              then VBad ("capture_witness (Model/Fun2Core.v) differs from the checked program of " ++ name ++ ": " ++ show (s_fcprog p))
+              else
               let m := compile_prog p in
               match r with
               | L [A "PANIC"; Q msg] =>
